@@ -148,6 +148,10 @@ type nsNode struct {
 	stopped bool
 	tunOut  [][]byte // everything the node wrote to its tun device
 	logBuf  *bytes.Buffer
+	rawCfg  string
+	// stopPump ends this node's UDP pump alone (the closed-socket probe of C49 needs the transmit
+	// channel to fill up)
+	stopPump chan struct{}
 }
 
 type nsSim struct {
@@ -259,6 +263,7 @@ func (s *nsSim) addNode(ca []*nsCA, id *nsIdent, udpAddr netip.AddrPort, overrid
 		return nil, err
 	}
 	n.ctrl, n.cfg = ctrl, c
+	n.rawCfg = string(cb)
 	s.nodes = append(s.nodes, n)
 	s.startPumps(n)
 	return n, nil
@@ -267,12 +272,15 @@ func (s *nsSim) addNode(ca []*nsCA, id *nsIdent, udpAddr netip.AddrPort, overrid
 func (s *nsSim) startPumps(n *nsNode) {
 	txUDP := n.ctrl.f.outside.(*udp.TesterConn).TxPackets
 	txTun := n.ctrl.f.inside.(*overlay.TestTun).TxPackets
+	n.stopPump = make(chan struct{})
 	s.pumps.Add(2)
 	go func() {
 		defer s.pumps.Done()
 		for {
 			select {
 			case <-s.stopPump:
+				return
+			case <-n.stopPump:
 				return
 			case p := <-txUDP:
 				s.mu.Lock()
